@@ -2,6 +2,8 @@ import KmipModel.Tls
 import KmipModel.ExpectSkel
 import KmipGen.TlsDefaults
 import KmipGen.Skeleton
+import KmipGen.CodecSrc
+import KmipModel.ExpectCodec
 /-
   C16, generated obligations: the results of the REAL DefaultServerTLSConfig / DefaultClientTLSConfig on six probe
   configurations (zero, weak, strong, InsecureSkipVerify set, SSL 3.0, …), regenerated on every run, equal the model's
@@ -25,5 +27,9 @@ theorem GenC16_server_skeleton : KmipGen.skel_DefaultServerTLSConfig = ExpectSke
 theorem GenC16_client_skeleton : KmipGen.skel_DefaultClientTLSConfig = ExpectSkel.skel_DefaultClientTLSConfig := by decide
 theorem GenC16_serve_skeleton : KmipGen.skel_Server_serve = ExpectSkel.skel_Server_serve := by decide
 theorem GenC16_connect_skeleton : KmipGen.skel_Client_Connect = ExpectSkel.skel_Client_Connect := by decide
+/-- `ListenAndServe` is where the Server's tls.Config meets the listener: whatever it does to the configuration is part of C16 -/
+theorem GenC16_listenAndServe_skeleton : KmipGen.skel_Server_ListenAndServe = ExpectSkel.skel_Server_ListenAndServe := by decide
+/-- everything in tls.go (normalised source, see kvscan/srcdigest.go): the two Default… functions and any helper beside them -/
+theorem GenC16_src_tls : KmipGen.codecSrc_tls = ExpectCodec.codecSrc_tls := by decide
 
 end Kmip
